@@ -107,6 +107,14 @@ def convert_from(eng, st, fr, site, val, from_ty, to_ty):
                 for it in imp["items"]:
                     if it["name"] == "from" and it["path"] in eng.F.bodies:
                         return eng.inline(st, fr, eng.F.body(it["path"]), {}, [val], site)
+    # &str / &[T] -> String / Vec<T>: an owned copy of the viewed bytes
+    kind = eng.M.container_kind(to_ty)
+    if kind is not None:
+        from engine.contracts_coll import new_cont, view
+        vw = view(eng, st, val)
+        if vw is not None:
+            segs = (("bytes", vw["base"], vw["off"], vw["len"]),) if not isinstance(vw["base"], tuple) else None
+            return [(st, new_cont(eng, kind, vw["len"], vw["elem"], segs, to_ty, hint="copy(%s)" % (vw["base"] if isinstance(vw["base"], str) else "tmp")))]
     return [(st, Top(to_ty, "from#%d" % eng._hv()))]
 
 
